@@ -5,19 +5,20 @@ From HC Require Export Base Store.
 Open Scope Z_scope.
 
 Section Aead.
-  Variable seal : bytes -> bytes -> bytes -> bytes.             (* key, nonce, plaintext -> ciphertext‖tag *)
-  Variable open_ : bytes -> bytes -> bytes -> option bytes.     (* key, nonce, ciphertext‖tag -> plaintext *)
+  (* the additional data is the key (name) of the entry: authenticated with the ciphertext, not stored in the file (fix F36) *)
+  Variable seal : bytes -> bytes -> bytes -> bytes -> bytes.             (* key, additional data, nonce, plaintext -> ciphertext‖tag *)
+  Variable open_ : bytes -> bytes -> bytes -> bytes -> option bytes.     (* key, additional data, nonce, ciphertext‖tag -> plaintext *)
   Variable decode_key : bytes -> option bytes.                  (* base64.URLEncoding.DecodeString *)
 
   Definition nonce_size : nat := 12.
 
-  (* aesgcmEncryptor.Encrypt with the nonce the random source delivered *)
-  Definition encrypt (k nonce v : bytes) : bytes := nonce ++ seal k nonce v.
+  (* aesgcmEncryptor.EncryptFor with the nonce the random source delivered *)
+  Definition encrypt (k name nonce v : bytes) : bytes := nonce ++ seal k name nonce v.
 
-  (* aesgcmEncryptor.Decrypt *)
-  Definition decrypt (k data : bytes) : option bytes :=
+  (* aesgcmEncryptor.DecryptFor *)
+  Definition decrypt (k name data : bytes) : option bytes :=
     if (List.length data <? nonce_size)%nat then None
-    else open_ k (firstn nonce_size data) (skipn nonce_size data).
+    else open_ k name (firstn nonce_size data) (skipn nonce_size data).
 
   (* newAESGCMEncryptor: the key must decode and have an AES key length *)
   Definition valid_key_len (k : bytes) : bool :=
@@ -47,10 +48,11 @@ Section Aead.
     else OpenOk None.
 
   (* what set writes to the file, and what get makes of a file *)
-  Definition file_bytes (enc : option bytes) (nonce v : bytes) : bytes :=
-    match enc with Some k => encrypt k nonce v | None => v end.
-  Definition read_file (enc : option bytes) (data : bytes) : option bytes :=
-    match enc with Some k => decrypt k data | None => Some data end.
+  (* [name]: the key the value is stored under / asked for *)
+  Definition file_bytes (enc : option bytes) (name nonce v : bytes) : bytes :=
+    match enc with Some k => encrypt k name nonce v | None => v end.
+  Definition read_file (enc : option bytes) (name data : bytes) : option bytes :=
+    match enc with Some k => decrypt k name data | None => Some data end.
 End Aead.
 
 (* base64.URLEncoding.DecodeString (padded, not strict: CR and LF are skipped, trailing bits are not checked) *)
